@@ -331,8 +331,20 @@ func resp3To2(val3 respValue) (value respValue) {
 	switch v := val3.data.(type) {
 	case respSimpleString, respErrorString, respInt, respBulkString:
 		value.data = v
-	case respDouble, respBool, respBigNumber, respVerbatimString:
-		value.data = respSimpleString(fmt.Sprintf("%s", v))
+	case respDouble:
+		// RESP2 carries numbers that are not integers as bulk strings
+		value.data = respBulkString(v.String())
+	case respBigNumber:
+		value.data = respBulkString(v.String())
+	case respVerbatimString:
+		// the text only (no "txt:" prefix); a bulk string because the text may have line breaks
+		value.data = respBulkString(v.text)
+	case respBool:
+		if bool(v) {
+			value.data = respInt(1)
+		} else {
+			value.data = respInt(0)
+		}
 	case respBlobError:
 		value.data = respErrorString(v.String())
 	case respMap:
